@@ -4,10 +4,10 @@
 //@ min-verified 3
 //@ assume MatchType::find_nth carries the contract PROVED in unit C02_find (restated: a Some result is never before `index`)
 //@ assume checked_add carries the contract PROVED complete by Kani C04_subst::length_arith (Some(base + changes) when that is a usize, None otherwise)
-//@ assume apply_subst carries the contract read off its body (src/gsub.rs:729): Ok(Some(c)) - the run's length changed by exactly c (0 for single / alternate / reverse chaining, count - 1 for multiple, -removed for ligature, the nested change for contextual lookups, which is this unit's own postcondition); Ok(None) - length unchanged. Nothing is assumed about whether c stays within the span of the context's input sequence: a nested ligature works on the whole run
+//@ assume apply_subst carries the contract PROVED in unit C02_subst (the two functions are mutually recursive through contextsubst; each unit is verified against the other's contract, termination by the decreasing recursion_limit is stated, not proved): Ok(Some(c)) - the run's length changed by exactly c (0 for single / alternate / reverse chaining, count - 1 for multiple, -removed for ligature, the nested change for contextual lookups, which is this unit's own postcondition); Ok(None) - length unchanged. Nothing is assumed about whether c stays within the span of the context's input sequence: a nested ligature works on the whole run
 //@ assume a Vec<RawGlyph> holds at most usize::MAX / 2 (= isize::MAX) elements (Rust allocation limit for a non-zero-sized element type): precondition here, postcondition of the apply_subst stub
 //@ assume SubstContext / MatchContext / GlyphTable / LookupList / LayoutCache are opaque placeholder types; GlyphTable::len is an uninterpreted usize
-//@ unverified apply_subst itself (Rc<LookupCacheItem>, seven lookup types); contextsubst_would_apply (closures)
+//@ unverified contextsubst_would_apply / chaincontextsubst_would_apply (closures): which context matches
 // Verification unit C02_ctx (properties C02, C04): nested lookups of a contextual substitution (GSUB types 5 and 6).
 // Proved for every match, every list of (sequence index, lookup index) records and every behaviour of the nested lookups allowed by
 // apply_subst's contract:
@@ -67,7 +67,7 @@ pub fn checked_add(base: usize, changes: isize) -> (r: Option<usize>)
         !(0 <= base + changes <= usize::MAX) ==> r is None,
 { unimplemented!() }
 
-/// contract read off the body of apply_subst (trusted here, see the header)
+/// contract proved in unit C02_subst
 #[verifier::external_body]
 pub fn apply_subst<T: GlyphData>(
     recursion_limit: usize,
@@ -81,6 +81,7 @@ pub fn apply_subst<T: GlyphData>(
     glyphs: &mut Vec<RawGlyph<T>>,
     index: usize,
 ) -> (r: Result<Option<isize>, ParseError>)
+    requires old(glyphs)@.len() <= usize::MAX / 2
     ensures
         r is Ok && r->Ok_0 is Some ==> final(glyphs)@.len() == old(glyphs)@.len() + r->Ok_0->Some_0,
         r is Ok && r->Ok_0 is None ==> final(glyphs)@.len() == old(glyphs)@.len(),
